@@ -2,14 +2,21 @@ module google.golang.org/grpc/verif/harness
 
 go 1.25.0
 
-require google.golang.org/grpc v0.0.0
+require (
+	github.com/envoyproxy/go-control-plane/envoy v1.39.0
+	google.golang.org/grpc v1.82.0
+	google.golang.org/protobuf v1.36.12
+)
 
 require (
+	cel.dev/expr v0.25.3 // indirect
+	github.com/cncf/xds/go v0.0.0-20260202195803-dba9d589def2 // indirect
+	github.com/envoyproxy/protoc-gen-validate v1.3.3 // indirect
 	golang.org/x/net v0.58.0 // indirect
 	golang.org/x/sys v0.47.0 // indirect
 	golang.org/x/text v0.41.0 // indirect
+	google.golang.org/genproto/googleapis/api v0.0.0-20260817212433-ac3dfec99bb1 // indirect
 	google.golang.org/genproto/googleapis/rpc v0.0.0-20260817212433-ac3dfec99bb1 // indirect
-	google.golang.org/protobuf v1.36.12 // indirect
 )
 
 replace google.golang.org/grpc => /repo
